@@ -106,7 +106,7 @@ func Select(site string, hasDefault bool, cases []SelCase) Selected {
 	c, st := cases[i], states[i]
 	s.trace("select clause %d %s", i, site)
 	if c.send {
-		raceSend(st, site+" (select)")
+		raceSend(st, site)
 		if !st.closed {
 			if k := st.sends - st.capacity; k >= 0 && k < len(st.recvVCs) {
 				joinVC(&t.vc, &st.recvVCs[k])
